@@ -774,6 +774,18 @@ fn extract<'tcx>(tcx: TyCtxt<'tcx>, crate_name: &str) -> J {
         }
         if let Some(b) = body {
             o.extend(body_j(tcx, did, b));
+            if matches!(kind, DefKind::Fn | DefKind::AssocFn | DefKind::Closure) {
+                let proms = std::panic::catch_unwind(std::panic::AssertUnwindSafe(|| tcx.promoted_mir(did))).ok();
+                if let Some(proms) = proms {
+                    let mut pv = vec![];
+                    for pb in proms.iter() {
+                        pv.push(J::O(body_j(tcx, did, pb)));
+                    }
+                    if !pv.is_empty() {
+                        o.push(("promoted", J::A(pv)));
+                    }
+                }
+            }
         } else {
             o.push(("nomir", J::B(true)));
         }
